@@ -10,17 +10,19 @@ EXTENDS IndLib
 ChaikinOscillator_Term(c) == FxMul(CLV(c), c.v)
 ChaikinOscillator_Init(cfg, c) ==
     LET a0 == FxMulInt(ChaikinOscillator_Term(c), cfg.window)
-    IN  [w |-> WFill(cfg.window, ChaikinOscillator_Term(c)), adi |-> a0, mag |-> FxAbs(a0),
+    IN  [w |-> WFill(cfg.window, ChaikinOscillator_Term(c)), adi |-> a0, mag |-> FxAbs(a0), cnd |-> FxMulInt(CLVCond(c), cfg.window),
          m1 |-> MInit(cfg.ma1, a0), m2 |-> MInit(cfg.ma2, a0)]
 ChaikinOscillator_Step(cfg, st, c, P, V) ==
     LET term == ChaikinOscillator_Term(c)
         w    == IF cfg.window = 0 THEN st.w ELSE WPush(st.w, term)
         adi  == IF cfg.window = 0 THEN FxAdd(st.adi, term) ELSE FxSum(w)
+        \* largest |adi| reached; the conditioning of the clv terms accumulates like the terms themselves
         mag  == FxMax(st.mag, FxAbs(adi))
+        cnd  == FxAdd(st.cnd, CLVCond(c))
         a    == MStep(cfg.ma1, st.m1, adi)
         b    == MStep(cfg.ma2, st.m2, adi)
-    IN  [st |-> [w |-> w, adi |-> adi, mag |-> mag, m1 |-> a.st, m2 |-> b.st],
-         vals |-> <<Ex(FxSub(a.out, b.out), FxMulInt(FxMax(mag, V), 4))>>]
+    IN  [st |-> [w |-> w, adi |-> adi, mag |-> mag, cnd |-> cnd, m1 |-> a.st, m2 |-> b.st],
+         vals |-> <<Ex(FxSub(a.out, b.out), FxMulInt(FxMax(FxMax(mag, V), FxDivInt(cnd, 8)), 4))>>]
 
 ChaikinOscillator_SigInit(cfg, c) == [x |-> 0]
 ChaikinOscillator_Sig(cfg, sg, c, v) == {[sg |-> [x |-> CrossLast(v[1], ZeroV)], sigs |-> <<{Act(CrossOut(sg.x, v[1], ZeroV))}>>]}
